@@ -66,6 +66,11 @@ func ip2int(ip net.IP) uint32 {
 		return binary.BigEndian.Uint32(ip[12:16])
 	}
 
+	if len(ip) != 4 {
+		// no IPv4 address (e.g. an IPv6-only F-SEID, F-TEID or Outer Header Creation)
+		return 0
+	}
+
 	return binary.BigEndian.Uint32(ip)
 }
 
